@@ -1029,6 +1029,40 @@ def b_intersection_filter(S):
         slice_from="inter = determine_valid_intersection_points", default_num="Nat", join="tuple")
 
 
+def b_general_nodes(S):
+    """the loop of `determine_general_nodes`: per trace the candidates (bounding-box query, own index removed, LineStrings only), the
+    intersection points that are not V-nodes (regenerated callee) and the end points that are not (within 1e-3 of) an intersection
+    point; non-line rows get empty tuples"""
+    src = S[GENERAL]
+    q = "determine_general_nodes"
+    C = {
+        "traces.geometry.values": "geoms",
+        "traces.sindex": "()",
+        "not isinstance(geom, LineString) or geom.is_empty": "(!(is_line geom))",
+        "()": "[]",
+        "sorted(spatial_index_intersection(spatial_index, geom_bounds(geom))) if spatial_index is not None else [idx]": "(bboxq idx geom)",
+        "traces.geometry.iloc[trace_candidates_idx]": "(List.filterMap (fun i => geoms[i]?) trace_candidates_idx)",
+        "trace_candidates.loc[[isinstance(geom, LineString) for geom in trace_candidates.geometry.values]]": "(List.filter is_ls trace_candidates)",
+        "determine_valid_intersection_points_no_vnode(trace_candidates, geom)": "(intersection_points_no_vnode (inter0 trace_candidates geom) ends_of close4 trace_candidates geom)",
+        "tuple(intersection_geoms)": "intersection_geoms",
+        "tuple((endpoint for endpoint in get_trace_endpoints(geom) if not any((np.isclose(endpoint.distance(intersection_geom), 0, atol=0.001) for intersection_geom in intersection_geoms if not intersection_geom.is_empty))))":
+            "(List.filter (fun endpoint => !(List.any intersection_geoms (fun ig => close3 endpoint ig))) (ends_of geom))",
+    }
+    T = {"traces.geometry.values": "List G", "traces.sindex": "Unit", "spatial_index": "Unit", "not isinstance(geom, LineString) or geom.is_empty": "Bool", "()": "List P",
+         "sorted(spatial_index_intersection(spatial_index, geom_bounds(geom))) if spatial_index is not None else [idx]": "List Nat",
+         "trace_candidates_idx": "List Nat", "traces.geometry.iloc[trace_candidates_idx]": "List G", "trace_candidates": "List G",
+         "trace_candidates.loc[[isinstance(geom, LineString) for geom in trace_candidates.geometry.values]]": "List G",
+         "determine_valid_intersection_points_no_vnode(trace_candidates, geom)": "List P", "intersection_geoms": "List P", "tuple(intersection_geoms)": "List P",
+         "endpoints": "List P", "intersect_nodes": "List (List P)", "endpoint_nodes": "List (List P)", "geom": "G",
+         "tuple((endpoint for endpoint in get_trace_endpoints(geom) if not any((np.isclose(endpoint.distance(intersection_geom), 0, atol=0.001) for intersection_geom in intersection_geoms if not intersection_geom.is_empty))))": "List P"}
+    return translate_function(
+        src, q, "general_nodes", {"geoms": "List G"}, "List (List P) × List (List P)", C, types=T,
+        extra_params=[("{G}", "Type"), ("{P}", "Type"), ("is_line", "G → Bool"), ("is_ls", "G → Bool"), ("bboxq", "Nat → G → List Nat"), ("inter0", "List G → G → List P"),
+                      ("ends_of", "G → List P"), ("close4", "P → P → Bool"), ("close3", "P → P → Bool")],
+        slice_from="intersect_nodes: List[Tuple[Point, ...]] = []", slice_to="return intersect_nodes, endpoint_nodes", returns_var="(intersect_nodes, endpoint_nodes)",
+        default_num="Nat", join="tuple")
+
+
 def b_junction_shift(S):
     src = S[GENERAL]
     tree = ast.parse(src)
@@ -1270,6 +1304,7 @@ ITEMS: List[Item] = [
     Item("JunctionShift", GENERAL, ["C02", "C16"], b_junction_shift),
     Item("NodeJunctions", GENERAL, ["C02", "C10"], b_node_junctions, extra_modules=[TVALS]),
     Item("IntersectionFilter", GENERAL, ["C02"], b_intersection_filter),
+    Item("GeneralNodes", GENERAL, ["C02"], b_general_nodes, deps=["IntersectionFilter"]),
     Item("ValidatorTable", TVALS, ["C09", "C13", "C02"], b_validator_table, extra_modules=[TVAL]),
     Item("ValidateStep", TVAL, ["C09", "C13"], b_validate_step),
     Item("ValidationPass", TVAL, ["C09", "C13"], b_validation_pass),
